@@ -667,7 +667,7 @@ func TestVerif_C20_Mutants(t *testing.T) {
 				headIdx = append(headIdx, i)
 			}
 		}
-		kinds := []string{"entry-byte-flip", "entry-under-other-name", "key-dropped", "proof-key-dropped", "key-duplicated", "existing-account", "existing-account/account-key-only", "existing-account/member-of-a-group-only", "heads-byte-flip", "key-byte-flip",
+		kinds := []string{"entry-byte-flip", "entry-under-other-name", "key-dropped", "proof-key-dropped", "both-keys-dropped", "key-duplicated", "existing-account", "existing-account/account-key-only", "existing-account/member-of-a-group-only", "heads-byte-flip", "key-byte-flip",
 			"entry-dropped", "reordered-keys-last", "reordered-heads-first", "truncated-tar", "entry-trailing-garbage", "heads-file-duplicated", "older-backup-refused-then-this-one"}
 		// every mutation kind once per exported history
 		for _, kind := range kinds {
@@ -707,14 +707,14 @@ func TestVerif_C20_Mutants(t *testing.T) {
 				i, j := entryIdx[0], entryIdx[len(entryIdx)-1]
 				files[i].Data, files[j].Data = files[j].Data, files[i].Data
 				mustReject = true
-			case "key-dropped", "proof-key-dropped":
+			case "key-dropped", "proof-key-dropped", "both-keys-dropped":
 				name := exportAccountKeyFilename
 				if kind == "proof-key-dropped" {
 					name = exportAccountProofKeyFilename
 				}
 				var out []c20File
 				for _, f := range files {
-					if f.Name != name {
+					if f.Name != name && !(kind == "both-keys-dropped" && f.Name == exportAccountProofKeyFilename) {
 						out = append(out, f)
 					}
 				}
@@ -838,7 +838,7 @@ func TestVerif_C20_Mutants(t *testing.T) {
 				fail("bad-archive-accepted/"+kind, fmt.Sprintf("an archive with %s was restored without error", kind))
 			}
 			// a rejected archive leaves the node as it was: the genuine export still restores into it afterwards
-			if rejected && err != nil && withAccount == "" && mustReject && kind != "key-dropped" && kind != "proof-key-dropped" {
+			if rejected && err != nil && withAccount == "" && mustReject && kind != "key-dropped" && kind != "proof-key-dropped" && kind != "both-keys-dropped" {
 				err2, timedOut2, pan2 := tgt.restore(c20Tar(src.files), 120*time.Second)
 				if pan2 != nil {
 					fail("restore-panic/after-rejected-"+kind, fmt.Sprint(pan2))
